@@ -99,3 +99,46 @@ pub proof fn alg_mul2(ha: real, hb: real, gan: real, gak: real, gbn: real, gbk: 
     assert(ha * y + hb * x + 0.5real * (gan * gbk + gak * gbn)
         == y * ha + x * hb + (0real * gan * gak + 1real * (gan * gbk + gak * gbn) + 0real * gbn * gbk) / 2real) by(nonlinear_arith);
 }
+
+pub proof fn alg_assoc3(g: real, p: real, w: real)
+    ensures (g * p) * w == (p * w) * g,
+{
+    assert((g * p) * w == (p * w) * g) by(nonlinear_arith);
+}
+
+pub proof fn alg_half_assoc(a: real, b: real)
+    ensures (0.5real * a) * b == 0.5real * (a * b),
+{
+    assert((0.5real * a) * b == 0.5real * (a * b)) by(nonlinear_arith);
+}
+pub proof fn alg_half_comm(g: real, q: real)
+    ensures g * (0.5real * q) == (q * g) / 2real,
+{
+    assert(g * (0.5real * q) == 0.5real * (q * g)) by(nonlinear_arith);
+}
+pub proof fn alg_assoc(a: real, b: real, c: real)
+    ensures a * b * c == a * (b * c),
+{
+    assert(a * b * c == a * (b * c)) by(nonlinear_arith);
+}
+
+/// Dual2 power rule: h*c1 + (gn*gk)*c2 with c1 = p*w1, c2 = ((0.5*p)*(p-1))*w2
+pub proof fn alg_pow2(h: real, gn: real, gk: real, p: real, w1: real, w2: real)
+    ensures h * (p * w1) + (gn * gk) * (((0.5real * p) * (p - 1real)) * w2)
+        == (p * w1) * h + (p * (p - 1real) * w2) * gn * gk / 2real,
+{
+    let pp = p * (p - 1real);
+    let q = pp * w2;
+    let g = gn * gk;
+    alg_half_assoc(p, p - 1real);
+    alg_half_assoc(pp, w2);
+    alg_half_comm(g, q);
+    alg_assoc(q, gn, gk);
+    alg_comm(h, p * w1);
+}
+
+pub proof fn alg_comm(a: real, b: real)
+    ensures a * b == b * a,
+{
+    assert(a * b == b * a) by(nonlinear_arith);
+}
